@@ -7,8 +7,9 @@ from harness.common import Blob
 
 NAMES = ["a", "b", "c", "d", "e", "x", "z", "a.b", "a b", "B", "Z", "_", "0", "10", "2",
          "é", "ß", "日本", "𝄞", "a%26b", "a&b=c", "a+b", "#h", "~", "aa", "ab", "a-", "a.",
-         "f.bin", "F.BIN", "data", "data.0", "data0", "ÿ", "Ā", "\U0001F600", "�"]
-DIRS = ["d", "d.d", "dir", "D", "a", "a.b", "sub", "ü", "0", "z z", "𝄞d"]
+         "f.bin", "F.BIN", "data", "data.0", "data0", "ÿ", "Ā", "\U0001F600", "�",
+         "cafe\u0301.txt", "caf\u00e9.txt", "A\u030a", "\u00c5"]
+DIRS = ["d", "d.d", "dir", "D", "a", "a.b", "sub", "ü", "0", "z z", "𝄞d", "u\u0308", "cover"]
 
 
 def size_classes(B, pl):
@@ -68,6 +69,15 @@ def rel_paths(rng, count, depth=3):
     files, dirs = set(), {""}
     out = []
     tries = 0
+    if count >= 2 and rng.random() < 0.25:
+        base = rng.choice(["cover", "disc 1", "a", "data"])
+        pre = rng.choice(["", "d/"])
+        for p in (pre + base + "/" + rng.choice(NAMES[:8]), pre + base + rng.choice([".jpg", " - notes.txt", "-b", ".b"])):
+            files.add(p)
+            out.append(p)
+            comps = p.split("/")
+            for i in range(1, len(comps)):
+                dirs.add("/".join(comps[:i]))
     while len(out) < count and tries < 200:
         tries += 1
         d = rng.randrange(0, depth)
